@@ -9,11 +9,34 @@ type weighted struct {
 	w  int
 }
 
+// action mixes per profile
 var profiles = map[string][]weighted{
-	// general-purpose fault mix used by the safety properties
 	"safety": {{"apply", 30}, {"tick", 8}, {"isolate", 7}, {"partition", 6}, {"oneway", 3}, {"heal", 9}, {"crash", 6}, {"crashop", 6},
 		{"restart", 7}, {"restartall", 1}, {"lossy", 3}, {"snapshot", 3}, {"addvoter", 2}, {"addnonvoter", 1}, {"demote", 1}, {"remove", 2},
-		{"transfer", 3}, {"verify", 2}, {"barrier", 2}, {"reload", 2}, {"shutdown", 1}},
+		{"transfer", 3}, {"verify", 2}, {"barrier", 2}, {"reload", 2}, {"shutdown", 1}, {"stalesuffix", 1}, {"lagcompact", 1}},
+	"election": {{"apply", 15}, {"tick", 8}, {"isolate", 12}, {"partition", 8}, {"oneway", 5}, {"heal", 12}, {"crash", 6}, {"crashop", 10},
+		{"restart", 10}, {"lossy", 6}, {"transfer", 6}, {"reload", 5}, {"addvoter", 1}, {"demote", 1}, {"remove", 2}, {"cutleader", 4}},
+	"snapshot": {{"apply", 35}, {"tick", 6}, {"lagcompact", 8}, {"stalesuffix", 6}, {"snapshot", 8}, {"crash", 6}, {"crashop", 6}, {"restart", 8},
+		{"isolate", 6}, {"heal", 8}, {"restartall", 2}, {"addvoter", 1}, {"remove", 1}, {"demote", 1}, {"transfer", 2}, {"reload", 2}},
+	"durability": {{"apply", 30}, {"tick", 6}, {"restartall", 6}, {"crash", 8}, {"restart", 10}, {"crashop", 8}, {"isolate", 8}, {"partition", 8},
+		{"heal", 10}, {"reload", 4}, {"remove", 1}, {"addvoter", 1}, {"demote", 1}, {"stalesuffix", 4}, {"transfer", 2}, {"lossy", 2}},
+	"commit": {{"apply", 35}, {"tick", 6}, {"cutleader", 8}, {"partition", 8}, {"isolate", 4}, {"heal", 10}, {"addvoter", 2}, {"addnonvoter", 2},
+		{"demote", 2}, {"remove", 1}, {"crash", 4}, {"restart", 5}, {"barrier", 2}, {"lossy", 2}},
+	"membership": {{"apply", 20}, {"tick", 6}, {"addvoter", 9}, {"addnonvoter", 6}, {"demote", 7}, {"remove", 8}, {"transfer", 6}, {"isolate", 6},
+		{"heal", 8}, {"crash", 5}, {"restart", 6}, {"partition", 4}, {"crashop", 4}, {"reload", 2}, {"cutleader", 2}},
+	"clients": {{"apply", 45}, {"tick", 5}, {"barrier", 8}, {"transfer", 6}, {"isolate", 5}, {"heal", 6}, {"remove", 2}, {"demote", 1}, {"crash", 4},
+		{"restart", 5}, {"cutleader", 3}, {"lossy", 2}, {"snapshot", 2}},
+	"verify": {{"verify", 25}, {"cutleader", 10}, {"partition", 8}, {"isolate", 5}, {"heal", 10}, {"apply", 15}, {"lossy", 6}, {"addnonvoter", 2},
+		{"demote", 2}, {"tick", 8}, {"transfer", 2}, {"crash", 2}, {"restart", 3}},
+	"converge": {{"apply", 30}, {"tick", 5}, {"stalesuffix", 10}, {"lagcompact", 10}, {"crash", 8}, {"restart", 8}, {"isolate", 8}, {"partition", 8},
+		{"heal", 6}, {"snapshot", 5}, {"addvoter", 3}, {"restartall", 2}, {"lossy", 4}, {"crashop", 4}},
+	"futures": {{"apply", 14}, {"barrier", 7}, {"verify", 7}, {"addvoter", 3}, {"addnonvoter", 2}, {"demote", 2}, {"remove", 3}, {"snapshot", 5},
+		{"restore", 3}, {"transfer", 6}, {"getconfig", 3}, {"shutdown", 8}, {"aftershutdown", 4}, {"isolate", 5}, {"cutleader", 5}, {"heal", 6},
+		{"crash", 2}, {"restart", 5}, {"tick", 8}},
+	"notify": {{"transfer", 12}, {"cutleader", 8}, {"isolate", 8}, {"heal", 12}, {"remove", 2}, {"demote", 2}, {"apply", 15}, {"slowconsumer", 6},
+		{"tick", 10}, {"crash", 3}, {"restart", 5}, {"reload", 3}},
+	"restore": {{"restore", 12}, {"apply", 35}, {"tick", 6}, {"addvoter", 2}, {"demote", 2}, {"remove", 2}, {"isolate", 5}, {"lagcompact", 4}, {"heal", 8},
+		{"crash", 3}, {"restart", 4}, {"transfer", 4}, {"snapshot", 3}, {"barrier", 2}},
 }
 
 func pick(t *rapid.T, ws []weighted, label string) string {
@@ -37,12 +60,27 @@ func oneOf[T any](t *rapid.T, label string, xs ...T) T {
 
 // GenShape draws the cluster record.
 func GenShape(t *rapid.T, p *Program) {
-	p.N = oneOf(t, "n", 3, 3, 3, 3, 3, 5, 5, 5, 4, 2, 1)
+	prof := p.Profile
+	switch prof {
+	case "verify", "commit":
+		p.N = oneOf(t, "n", 3, 3, 4, 4, 5, 5)
+	case "prevote", "lease":
+		p.N = oneOf(t, "n", 3, 3, 3, 5, 5, 4)
+	default:
+		p.N = oneOf(t, "n", 3, 3, 3, 3, 3, 5, 5, 5, 4, 2, 1)
+	}
 	flavourMode := oneOf(t, "flavourMode", 0, 0, 0, 0, 1, 1, 2, 2, 3)
+	if prof == "restore" {
+		flavourMode = oneOf(t, "flavourModeR", 0, 0, 1, 1, 2)
+	}
 	hbBase := oneOf(t, "hbBase", 50, 50, 100)
+	nvOdds := 6
+	if prof == "verify" || prof == "commit" {
+		nvOdds = 2
+	}
 	for i := 0; i < p.N; i++ {
 		suf := 0
-		if i > 0 && p.N >= 3 && rapid.IntRange(0, 6).Draw(t, "nonvoter") == 0 {
+		if i > 0 && p.N >= 3 && rapid.IntRange(0, nvOdds).Draw(t, "nonvoter") == 0 {
 			suf = 1
 		}
 		p.Suffrage = append(p.Suffrage, suf)
@@ -59,14 +97,24 @@ func GenShape(t *rapid.T, p *Program) {
 		p.Batching = append(p.Batching, rapid.Bool().Draw(t, "batching"))
 		p.ConfStore = append(p.ConfStore, rapid.IntRange(0, 3).Draw(t, "confstore") == 0)
 		p.NoPreVote = append(p.NoPreVote, rapid.IntRange(0, 6).Draw(t, "noprevote") == 0)
-		p.HBms = append(p.HBms, hbBase*oneOf(t, "hbFactor", 1, 1, 1, 1, 3))
+		f := oneOf(t, "hbFactor", 1, 1, 1, 1, 3)
+		if prof == "lease" || prof == "prevote" {
+			f = 1
+		}
+		p.HBms = append(p.HBms, hbBase*f)
 	}
+	// keep at least two voters in multi-server verify/commit shapes
 	p.RCL = flavourMode == 3
 	p.LeaseDiv = oneOf(t, "leaseDiv", 1, 1, 2)
 	p.MaxAppend = oneOf(t, "maxAppend", 1, 2, 3, 8, 64)
 	p.Trailing = oneOf[uint64](t, "trailing", 0, 1, 2, 5, 20, 10240)
 	p.SnapThr = oneOf[uint64](t, "snapThr", 2, 5, 20, 8192)
 	p.SnapIntMs = oneOf(t, "snapInt", 20, 100, 1000)
+	if prof == "snapshot" || prof == "converge" {
+		p.Trailing = oneOf[uint64](t, "trailingS", 0, 1, 2, 5, 20)
+		p.SnapThr = oneOf[uint64](t, "snapThrS", 2, 5, 5, 20)
+		p.SnapIntMs = oneOf(t, "snapIntS", 20, 100)
+	}
 	p.BatchCh = rapid.Bool().Draw(t, "batchApplyCh")
 	p.ShutRm = rapid.Bool().Draw(t, "shutdownOnRemove")
 	p.Pipeline = rapid.Bool().Draw(t, "pipeline")
@@ -82,7 +130,7 @@ func genAction(t *rapid.T, p *Program, ws []weighted) Action {
 		a.Srv = tgt()
 		a.N = oneOf(t, "burst", 1, 1, 2, 3, 5, 10, 20)
 		a.Arg = oneOf(t, "enqueueTimeout", 0, 0, 0, 1, 5)
-	case "barrier", "verify", "snapshot", "crash", "restart", "isolate", "shutdown", "getconfig":
+	case "barrier", "verify", "snapshot", "crash", "restart", "isolate", "shutdown", "getconfig", "aftershutdown":
 		a.Srv = tgt()
 	case "partition":
 		k := rapid.IntRange(1, max(1, p.N-1)).Draw(t, "sideSize")
@@ -115,6 +163,18 @@ func genAction(t *rapid.T, p *Program, ws []weighted) Action {
 		a.Srv = oneOf(t, "target", -1, -1, -1, 0)
 		a.N = rapid.IntRange(1, 5).Draw(t, "stateSize")
 		a.Arg = rapid.IntRange(0, 2).Draw(t, "where")
+	case "cutleader":
+		a.N = rapid.IntRange(0, 2).Draw(t, "keepVoters")
+		a.Arg = rapid.IntRange(0, 1).Draw(t, "keepNonvoters")
+	case "stalesuffix":
+		a.N = oneOf(t, "suffix", 1, 2, 5, 12)
+		a.Arg = oneOf(t, "newEntries", 1, 3, 8, 20)
+	case "lagcompact":
+		a.N = oneOf(t, "writes", 3, 6, 12, 30)
+		a.Arg = rapid.IntRange(0, 1).Draw(t, "crashIt")
+	case "slowconsumer":
+		a.Srv = tgt()
+		a.N = oneOf(t, "delayMs", 0, 1, 5, 20) // Config.NotifyCh must be "aggressively consumed": raft blocks on it by design
 	}
 	return a
 }
@@ -131,6 +191,17 @@ func seq(n int) []int {
 func GenProgram(t *rapid.T, profile string) *Program {
 	p := &Program{Profile: profile}
 	GenShape(t, p)
+	switch profile {
+	case "lease":
+		genLease(t, p)
+		return p
+	case "leaselong":
+		genLeaseLong(t, p)
+		return p
+	case "prevote":
+		genPreVote(t, p)
+		return p
+	}
 	ws := profiles[profile]
 	if ws == nil {
 		ws = profiles["safety"]
@@ -143,7 +214,77 @@ func GenProgram(t *rapid.T, profile string) *Program {
 	for i := 0; i < n; i++ {
 		p.Actions = append(p.Actions, genAction(t, p, ws))
 	}
-	p.Lossy = rapid.IntRange(0, 3).Draw(t, "lossy") == 0
+	lossyOdds := 3
+	if profile == "election" || profile == "verify" {
+		lossyOdds = 1
+	}
+	p.Lossy = rapid.IntRange(0, lossyOdds).Draw(t, "lossy") == 0
 	p.Tape = rapid.SliceOfN(rapid.Byte(), 0, 48).Draw(t, "tape")
+	if profile == "futures" && rapid.Bool().Draw(t, "longQuiet") {
+		p.QuietMs = 14000
+	}
 	return p
+}
+
+// genLease: cut the leader from its majority at a drawn instant, watch it.
+func genLease(t *rapid.T, p *Program) {
+	p.Actions = append(p.Actions, Action{Op: "tick", Dt: oneOf(t, "warm", 300, 600)})
+	rounds := rapid.IntRange(1, 3).Draw(t, "rounds")
+	for i := 0; i < rounds; i++ {
+		if rapid.Bool().Draw(t, "traffic") {
+			p.Actions = append(p.Actions, Action{Op: "apply", Srv: -1, N: oneOf(t, "burst", 1, 3, 10), Dt: rapid.IntRange(0, 30).Draw(t, "dt")})
+		}
+		p.Actions = append(p.Actions, Action{Op: "cutleader", Dt: rapid.IntRange(0, 120).Draw(t, "cutAt"),
+			N: rapid.IntRange(0, 2).Draw(t, "keepVoters"), Arg: rapid.IntRange(0, 1).Draw(t, "keepNonvoters")})
+		p.Actions = append(p.Actions, Action{Op: "tick", Dt: oneOf(t, "watch", 150, 300, 500)})
+		p.Actions = append(p.Actions, Action{Op: "heal", Dt: 0})
+		p.Actions = append(p.Actions, Action{Op: "tick", Dt: oneOf(t, "recover", 300, 600, 1000)})
+	}
+}
+
+// genLeaseLong: a long fault-free run (C13/R2).
+func genLeaseLong(t *rapid.T, p *Program) {
+	for i := range p.NoPreVote {
+		p.NoPreVote[i] = false
+	}
+	total := oneOf(t, "seconds", 60, 60, 120, 300, 600)
+	p.Actions = append(p.Actions, Action{Op: "tick", Dt: 1000})
+	traffic := rapid.Bool().Draw(t, "traffic")
+	chunks := 20
+	for i := 0; i < chunks; i++ {
+		a := Action{Op: "tick", Dt: total * 1000 / chunks}
+		if traffic {
+			a = Action{Op: "apply", Srv: -1, N: oneOf(t, "burst", 1, 2, 5), Dt: total * 1000 / chunks}
+		}
+		p.Actions = append(p.Actions, a)
+	}
+	p.QuietMs = 1000
+	p.SnapThr = 8192
+	p.Trailing = 10240
+}
+
+// genPreVote: isolate a minority for a long time, reconnect, watch.
+func genPreVote(t *rapid.T, p *Program) {
+	p.Actions = append(p.Actions, Action{Op: "tick", Dt: oneOf(t, "warm", 300, 600)})
+	rounds := rapid.IntRange(1, 2).Draw(t, "rounds")
+	hb := p.HBms[0]
+	for i := 0; i < rounds; i++ {
+		if rapid.Bool().Draw(t, "traffic") {
+			p.Actions = append(p.Actions, Action{Op: "apply", Srv: -1, N: oneOf(t, "burst", 1, 3, 10), Dt: 5})
+		}
+		maxIso := (p.N - 1) / 2
+		if maxIso < 1 {
+			maxIso = 1
+		}
+		k := rapid.IntRange(1, maxIso).Draw(t, "isolated")
+		perm := rapid.Permutation(seq(p.N)).Draw(t, "who")
+		p.Actions = append(p.Actions, Action{Op: "isolatemin", Set: perm[:k], Dt: rapid.IntRange(0, 100).Draw(t, "at")})
+		length := oneOf(t, "timeouts", 5, 8, 12, 20, 50, 200)
+		if rapid.Bool().Draw(t, "trafficDuring") {
+			p.Actions = append(p.Actions, Action{Op: "apply", Srv: -1, N: oneOf(t, "burst2", 1, 5, 20), Dt: hb * 3})
+		}
+		p.Actions = append(p.Actions, Action{Op: "tick", Dt: hb * length})
+		p.Actions = append(p.Actions, Action{Op: "rejoin", Dt: rapid.IntRange(0, 50).Draw(t, "rejoinAt")})
+		p.Actions = append(p.Actions, Action{Op: "tick", Dt: hb * 14})
+	}
 }
